@@ -98,9 +98,10 @@ def lean_unproved(ctx, pid, prop_mod):
                    {"theorem_or_module": prop_mod, "detail": getattr(ctx, "lean_failure", "")}, no_input=True)
 
 
-def run_harness(ctx, component, lines, flavour="ndebug", args=(), per_case_s=10.0, batch_s=None):
+def run_harness(ctx, component, lines, flavour="ndebug", args=(), per_case_s=10.0, batch_s=None, max_failures=None):
     """Run case lines through psyh, surviving crashes and hangs: a case on which the process dies or stops answering
     gets the answer 'CRASH rc=<n> <stderr tail>' / 'HANG', and the run resumes with the next case.
+    After `max_failures` such cases the remaining ones are answered 'SKIPPED' (a broken tree must not take hours).
     Returns the list of answers (same length as `lines`)."""
     import resource, subprocess, time as _t
     out_all = []
@@ -109,8 +110,12 @@ def run_harness(ctx, component, lines, flavour="ndebug", args=(), per_case_s=10.
 
     def limits():
         if "asan" not in flavour:
-            resource.setrlimit(resource.RLIMIT_AS, (6 << 30, 6 << 30))
+            resource.setrlimit(resource.RLIMIT_AS, (4 << 30, 4 << 30))
+    nfail = 0
     while i < len(lines):
+        if max_failures is not None and nfail >= max_failures:
+            out_all += ["SKIPPED"] * (len(lines) - i)
+            break
         chunk = lines[i:]
         budget = batch_s or (per_case_s + 0.02 * len(chunk))
         p = subprocess.Popen([build.psyh(flavour), component] + list(args), stdin=subprocess.PIPE, stdout=subprocess.PIPE, stderr=subprocess.PIPE,
@@ -151,4 +156,5 @@ def run_harness(ctx, component, lines, flavour="ndebug", args=(), per_case_s=10.
             tail = " / ".join(key[:3] + frames) if key else etxt[-600:].replace("\n", " / ")
             out_all.append("HANG (no answer within %.0fs)" % per_case_s if hang else "CRASH rc=%s %s" % (rc, tail))
             i += 1
+            nfail += 1
     return out_all
